@@ -76,6 +76,7 @@ func main() {
 	evmKeeperFacts(byPath[mod+"x/evm/keeper"], byPath[mod+"x/evm/vm"], byPath[mod+"x/evm/utils"])
 	feemarketFacts(byPath[mod+"x/feemarket/keeper"])
 	chainConfigFacts(byPath[mod+"x/evm/types"])
+	cpcExecutorWrites(byPath[mod+"x/cpc/keeper"])
 
 	// the pinned fork (module cache)
 	forkDir := forkDirOf(repo)
@@ -779,4 +780,106 @@ func forkCore(p *packages.Package) {
 		})
 	}
 	facts["forkCoreEvmBalanceSites"] = sites
+}
+
+// ---------------------------------------------------------------------------------------------
+// write-API census per custom-precompile method executor: for every type of x/cpc/keeper with an
+// `Execute` method, the state-writing callees reachable from its body through functions and
+// methods declared in the same package (transitive closure over go/types uses).
+
+var writeAPI = []string{"Set", "Send", "Burn", "Mint", "Delete", "Remove", "Delegate", "Undelegate", "BeginRedelegate",
+	"CancelUnbonding", "Withdraw", "AddLog", "AddBalance", "SubBalance", "Fund"}
+
+func isWriteName(n string) bool {
+	for _, w := range writeAPI {
+		if strings.HasPrefix(n, w) {
+			return true
+		}
+	}
+	return false
+}
+
+func cpcExecutorWrites(p *packages.Package) {
+	if p == nil {
+		fail("x/cpc/keeper not loaded")
+		return
+	}
+	// index function declarations of the package by their types.Object
+	decls := map[types.Object]*ast.FuncDecl{}
+	for _, f := range p.Syntax {
+		if isTest(p.Fset.Position(f.Pos()).Filename) {
+			continue
+		}
+		for _, d := range f.Decls {
+			if fd, ok := d.(*ast.FuncDecl); ok {
+				if obj := p.TypesInfo.Defs[fd.Name]; obj != nil {
+					decls[obj] = fd
+				}
+			}
+		}
+	}
+	var reach func(fd *ast.FuncDecl, seen map[*ast.FuncDecl]bool, out map[string]bool)
+	reach = func(fd *ast.FuncDecl, seen map[*ast.FuncDecl]bool, out map[string]bool) {
+		if fd == nil || fd.Body == nil || seen[fd] {
+			return
+		}
+		seen[fd] = true
+		ast.Inspect(fd.Body, func(n ast.Node) bool {
+			ce, ok := n.(*ast.CallExpr)
+			if !ok {
+				return true
+			}
+			var id *ast.Ident
+			switch fn := ce.Fun.(type) {
+			case *ast.Ident:
+				id = fn
+			case *ast.SelectorExpr:
+				id = fn.Sel
+			}
+			if id == nil {
+				return true
+			}
+			if obj := p.TypesInfo.Uses[id]; obj != nil {
+				if callee, ok := decls[obj]; ok {
+					reach(callee, seen, out)
+					// a package-local helper is itself a write when its name says so (e.g. SetErc20CpcAllowance)
+					if isWriteName(id.Name) {
+						out[id.Name] = true
+					}
+					return true
+				}
+			}
+			if obj := p.TypesInfo.Uses[id]; obj != nil && obj.Pkg() != nil {
+				switch obj.Pkg().Path() {
+				case "math/big", "cosmossdk.io/math", "strings", "fmt", "bytes":
+					return true // arithmetic / formatting setters are not state writes
+				}
+			}
+			if isWriteName(id.Name) {
+				out[id.Name] = true
+			}
+			return true
+		})
+	}
+	res := map[string][]string{}
+	for obj, fd := range decls {
+		if fd.Name.Name != "Execute" || fd.Recv == nil || len(fd.Recv.List) == 0 {
+			continue
+		}
+		_ = obj
+		recv := typeString(fd.Recv.List[0].Type)
+		recv = strings.TrimPrefix(recv, "*")
+		out := map[string]bool{}
+		reach(fd, map[*ast.FuncDecl]bool{}, out)
+		var ws []string
+		for w := range out {
+			ws = append(ws, w)
+		}
+		sort.Strings(ws)
+		res[recv] = ws
+	}
+	if len(res) == 0 {
+		fail("no Execute methods found in x/cpc/keeper")
+	}
+	facts["cpcExecutorWrites"] = res
 }
